@@ -3,6 +3,7 @@ package h
 import (
 	"fmt"
 	"strings"
+	"time"
 
 	"example.com/scion-time/net/ntske"
 
@@ -39,6 +40,20 @@ type fexp struct {
 // GenFetcher: the real Fetcher against the scripted TLS 1.3 peer; histories of failed and
 // successful exchanges on one fetcher.
 func GenFetcher(c *lib.Ctx) {
+	// observation (not part of C20's statement; reported as candidate finding F19): a peer that
+	// completes the handshake, sends part of its answer and then stays silent
+	for i := 0; i < 2; i++ {
+		c.Comment(fmt.Sprintf("history stalled-peer %d", i))
+		c.Do("f.new")
+		b := flat(baseMsg(c.Rand.Fork("stall"), 2, true))
+		c.Dof("f.fetch dial=1 alpn=%s host=%s stream=%s srvalpn=ntske/1 close=graceful drop=no hold=1500 ctxms=300",
+			lib.Hex([]byte("ntske/1")), hexOf("127.0.0.1"), hexList([][]byte{b[:len(b)-5]}))
+		if LastFetchElapsed > 1000*time.Millisecond {
+			c.Count("observed:stalled-peer-blocks-FetchData-past-context-deadline")
+		} else {
+			c.Count("observed:stalled-peer-FetchData-returned-by-deadline")
+		}
+	}
 	genFetcher(c, false, c.Scale(60, 500))
 	genFetcher(c, true, c.Scale(25, 200))
 }
